@@ -13,7 +13,7 @@ binary searches, whole-database operations on hostile directories.
 """
 from ..paths import xgraph
 from ..program import const_val, key, strip_casts, walk, fields_in
-from ..rules import (argkey, find_calls, fmt_atoms, holds, holds_any, is_call, site, CALL)
+from ..rules import (is_incr, argkey, find_calls, fmt_atoms, holds, holds_any, is_call, site, CALL)
 from .. import status
 from . import c12, tablefmt, wal, c17, c05
 
@@ -74,7 +74,7 @@ ROWS = [
     # --- blocks ---
     ("ldb_block_init", BLK, ASG("block->restart_offset"), 1,
      [[(">=", "block->size", 4), ("<=", CALL("ldb_block_restarts"), "max_restarts_allowed")]], "restart array offset"),
-    ("ldb_block_init", BLK, CALLTO("ldb_block_restarts"), 2, [[(">=", "block->size", 4)]], "restart count read at size - 4"),
+    ("ldb_block_init", BLK, CALLTO("ldb_block_restarts"), 1, [[(">=", "block->size", 4)]], "restart count read at size - 4"),
     ("ldb_blockiter_create", BLK, CALLTO("ldb_block_restarts"), 1, [[(">=", "block->size", 4)]], "restart count read at size - 4"),
     ("ldb_blockiter_create", BLK, CALLTO("ldb_blockiter_init"), 1, [[("!=", "num_restarts", "0"), (">=", "block->size", 4)]],
      "iterator over a non-empty restart array"),
@@ -89,7 +89,7 @@ ROWS = [
     ("ldb_blockiter_seek", BLK, CALLTO("do_compare"), 2,
      [[("!=", "key_ptr", "0"), ("==", "shared", "0")], [("!=", CALL("ldb_blockiter_valid"), "0")], [("!=", CALL("parse_next_key"), "0")]],
      "restart key compared only if decoded (unshared)"),
-    ("ldb_blockiter_prev", BLK, lambda e: e["e"] == "inc" and key(e["x"]) == "iter->restart_index", 1,
+    ("ldb_blockiter_prev", BLK, lambda e: is_incr(e, "iter->restart_index", -1), 1,
      [[("!=", "iter->restart_index", "0")]], "restart index decrement"),
     # --- filter ---
     ("ldb_filter_init", "src/table/filter_block.c", IDX("contents->data"), 1, [[(">=", "n", 5)]], "base_lg byte at n - 1"),
